@@ -3,9 +3,12 @@ Heap-mode contracts with exceptional postconditions, proved from the real source
 mutator of the driver / child / wire tables (Wire.__init__, setSource, addSource, rename, reparent,
 reparentAndRename, Logic.__init__, appendWire, InPort/OutPort.__init__) either returns with the table updated at
 exactly one key, or raises with all tables and the wire unchanged (quantified over all objects and keys).
-The integrity-check clause (raises iff some port wire is undriven) and the acceptance clause over the library are
-served by a bounded native stand-in (labelled bounded): random construction sequences with renames / re-parenting
-and single-fault variants (one removed or duplicated driver) of library blocks."""
+The integrity-check clause is a heap-mode contract on the real py4hw/debug.py::checkIntegrity (and checkPort): with
+integ(o) defined by its recursion equations (every in/out port wire of o has a source, and every child has integ),
+the function raises exactly when not integ(obj) and returns otherwise -- for every hierarchy, any depth (the recursive
+call is used through the function's own contract).  A bounded native stand-in (labelled bounded) additionally runs
+random construction sequences with renames / re-parenting and single-fault variants (one removed or duplicated
+driver) of library blocks."""
 import io, contextlib, random, time, copy
 from pvc import run, work, heapverify as HV
 from props import common
@@ -13,6 +16,7 @@ from props import common
 PROP = 'C11'
 FUNCS = ['Logic.appendWire', 'Wire.setSource', 'Wire.addSource', 'Wire.rename', 'Wire.reparent', 'Wire.reparentAndRename',
          'Logic.__init__', 'Wire.__init__', 'OutPort.__init__', 'InPort.__init__']
+DBG_FUNCS = ['checkPort', 'checkIntegrity']
 
 
 def heap_item(qual, timeout_s=20, **kw):
@@ -185,18 +189,19 @@ def integrity(seed=0, **kw):
 def main(tier, seed, only=None):
     t0 = time.time()
     n = 40 if tier == 'quick' else 400
-    items = [('props.C11:heap_item', dict(qual=q, timeout_s=20 if tier == 'quick' else 120)) for q in FUNCS]
+    items = [('props.C11:heap_item', dict(qual=q, timeout_s=20 if tier == 'quick' else 120)) for q in FUNCS + DBG_FUNCS]
     items += [('props.C11:construction', dict(seed=seed * 100 + k, n=n // 8)) for k in range(8)]
     items += [('props.C11:integrity', dict(seed=seed))]
     items = common.filter_only(items, only)
     res = run.run_items(items)
     return run.finish(PROP, tier, res, t0, level='proof', seed=seed,
-                      functions=['py4hw/base.py::' + q for q in FUNCS],
+                      functions=['py4hw/base.py::' + q for q in FUNCS] + ['py4hw/debug.py::' + q for q in DBG_FUNCS],
                       assumptions=['heap model: objects are references, every attribute is a map from references (Dafny style), dicts are (membership, value) maps over (owner, key), strings are atoms',
                                    'callee contracts used at call sites: appendWire, setSource/addSource (proved here), getFullPath / isPrimitive / addSink (assumed side-effect free resp. touching only the sinks list)',
                                    'keyword defaults are not modelled: every argument is arbitrary',
+                                   'checkIntegrity: precondition "the source port of every wire is registered in its parent block\'s inPorts/outPorts" (what addOut / addIn establish; under it checkPort never raises) is assumed of the hierarchy, not proved of the construction API; the dict iteration order of children is a ghost key list; checkPortParent and the WARNING prints have no effect on the verdict (print is dropped); recursion is assumed to terminate (finite acyclic hierarchy)',
                                    common.dropped_note()],
-                      bounded_parts=[{'what': 'integrity-check clause and acceptance clause: checkIntegrity on every library block of the composition registry (3 configurations each, inputs driven by constants), each with one single-fault variant (one input left undriven -> must raise) and one duplicated driver (must be refused, first driver kept)'},
+                      bounded_parts=[{'what': 'in addition to the heap proof of checkIntegrity: checkIntegrity on every library block of the composition registry (3 configurations each, inputs driven by constants), each with one single-fault variant (one input left undriven -> must raise) and one duplicated driver (must be refused, first driver kept)'},
                                      {'what': 'random construction sequences (wire creation, block instantiation, rename / reparent / reparentAndRename with clashing names, drivers): failing calls must leave all tables unchanged', 'sequences': n}],
                       trusted_extra=['heap-mode VC generator pvc/heap.py (maps as uninterpreted functions with guarded point updates, quantified frame conditions)'],
                       canary_ok=work.canary(), min_obligations=60)
